@@ -31,6 +31,8 @@ CT = 'commands::test'
 EC = 'rules::eval_context'
 
 UNITS = {
+    'U-failed': dict(functions='eval_context::report_all_failed_clauses_for_rules', cls='bounded (2 rule records x status x 3 payload-free child configurations)',
+                     quick=reg('rules::eval_context', ['k_report_failed_rules']), thorough=[], assumptions=[STUBS[0]], timeout=900, mem_gb=8),
     'U-binflip': dict(functions='operators: impl Comparator for (CmpOperator, bool), CmpOperator, EqOperation, InOperation, CommonOperator, match_value',
                       cls='complete for a single Int value against an Int literal (all i64 x i64 x not) per operator; type mismatch / unresolved / empty cases',
                       quick=reg('rules::eval::operators', ['k_flip_eq', 'k_flip_lt', 'k_flip_le', 'k_flip_gt', 'k_flip_ge', 'k_flip_in', 'k_flip_not_comparable']),
@@ -57,7 +59,7 @@ UNITS = {
                    quick=reg(FV, ['k_parse_char_int', 'k_parse_int_int_char', 'k_parse_bool_and_skips']), thorough=[], assumptions=[STUBS[0]], timeout=600),
     'U-substr': dict(functions='functions::strings::substring', cls='bounded (ASCII strings of 0..3 bytes, one 2-byte char + 1 ASCII; all from,to: usize)',
                      quick=reg(FS, ['k_substr_ascii', 'k_substr_utf8_nopanic', 'k_substr_skips']), thorough=[], assumptions=STUBS, timeout=600),
-    'U-join': dict(functions='functions::strings::join', cls='bounded (3 one-byte strings, one-byte delimiter; empty; non-string; unresolved)',
+    'U-join': dict(functions='functions::strings::join', cls='bounded (3 strings of 0..1 bytes each, one-byte delimiter; empty selection; non-string; unresolved)',
                    quick=reg(FS, ['k_join']), thorough=[], assumptions=STUBS, timeout=600),
     'U-cnf': dict(functions='eval::eval_conjunction_clauses (real generic code, T = forced leaf)',
                   cls='bounded (all shapes of 1 line x <= 3 alternatives and 2 lines x <= 2 alternatives quick; 2 x <= 3 and 3 x <= 2 thorough; every leaf in PASS/FAIL/SKIP/Err)',
